@@ -157,6 +157,31 @@ def drain_invocations(F, get_body):
             count_ops = [op for i, op in enumerate(ops) if i != ty_idx and op_local(op) is not None and
                          b.locals[op_local(op)] == "std::option::Option<usize>"]
             out.append((b, s, t, ty, count_ops))
+    # the drain routine as a private fn: `Self::drain_ready(storage, Serial, Some(n), &mut min_dur)`
+    from . import sched as S
+    try:
+        drain_body = S.drain_predicate(F)[1]
+    except Unverifiable:
+        drain_body = None
+    if drain_body is not None and drain_body.kind in ("Fn", "AssocFn"):
+        for b in F.nested(get_body):
+            for s, t in b.calls():
+                if F.callee_body(t, b.crate) is not drain_body:
+                    continue
+                ty = None
+                count_ops = []
+                for op in t["args"]:
+                    l = op_local(op)
+                    lty = b.locals[l] if l is not None else (op.get("ty") if isinstance(op, dict) else None)
+                    vs = [rv["variant"] for _, rv in A.slice_back(b, [op]).aggs if rv.get("adt") == "runner::basic::ScenarioType"]
+                    if lty == "runner::basic::ScenarioType" and len(vs) == 1:
+                        ty = vs[0]
+                    elif lty is None and isinstance(op, dict) and "ScenarioType::" in str(op.get("v", "")):
+                        ty = str(op["v"]).rsplit("::", 1)[-1]
+                    elif lty == "std::option::Option<usize>":
+                        count_ops.append(op)
+                if ty is not None:
+                    out.append((b, s, t, ty, count_ops))
     return out
 
 
@@ -193,7 +218,7 @@ def r2(F, R):
                           any(S.D.is_variant(x, "runner::basic::ScenarioType", "Serial") for a in e[2] for x in S.D.subterms(a))]
             if sers:
                 seen_both = True
-                if not (sers[0][0] < cons[0][0] and GT.outcome_of(p, sers[0][3]) == "None"):
+                if not (sers[0][0] < cons[0][0] and GT.gave(p, sers[0]) == "nothing"):
                     pref, why = False, "the Concurrent queue is drained although the Serial drain handed out a scenario (or before it)"
             elif not (ser_lookup and ser_lookup[0] < cons[0][0]):
                 pref, why = False, "the Concurrent queue is drained without consulting the Serial queue first"
